@@ -1549,9 +1549,11 @@ pub fn suite_expr(ctx: &mut Ctx, suite: &str, n: u64) {
         let ok = match (&got, &want) {
             (Ok(Ok(v)), Ok(w)) => v == w,
             (Ok(Err(_)), Err(RefErr::DivZero)) => true,
+            // `signExt` is in the function table but not implemented: an error, reached in evaluation order
+            (Ok(Err(_)), Err(RefErr::Unsupported)) => true,
             _ => false,
         };
-        ctx.report.bump(if matches!(want, Ok(_)) { "value" } else { "division-by-zero" });
+        ctx.report.bump(match want { Ok(_) => "value", Err(RefErr::Unsupported) => "not-implemented", _ => "division-by-zero" });
         if !ok {
             let mut d = String::new();
             dump_expr(&e, &mut d);
